@@ -170,8 +170,8 @@ def check_backends(A, rep):
     for func, cls in tb.items():
         b, g = A.graph(cls, "_to_base", "root", "none")
         rep.context(g.label, True)
-        heads = [n for n in live(g) if n.kind == "join" and n["what"] == "loop-head" and len(n.stack) == 1]
-        stores = [n.id for n in live(g) if n.kind == "local_mut" and len(n.stack) == 1]
+        heads = [n for n in live(g) if n.kind == "join" and n["what"] == "loop-head" and own(n)]
+        stores = [n.id for n in live(g) if n.kind == "local_mut" and own(n)]
         ok = bool(heads)
         wit = []
         for h in heads:
